@@ -103,6 +103,27 @@ def generate(contract):
     src, tree = extract.module_ast(fn.module)
     modnames = module_level_names(tree)
     excs = module_exception_classes(tree)
+    # exception classes imported from sibling modules (e.g. `from ._base import MatrixError`)
+    import os
+    for n in tree.body:
+        if isinstance(n, ast.ImportFrom) and n.level >= 1 and n.module:
+            base = os.path.dirname(fn.module)
+            for _ in range(n.level - 1):
+                base = os.path.dirname(base)
+            cand = os.path.join(base, *n.module.split('.'))
+            for m in (cand, os.path.join(cand, '__init__')):
+                try:
+                    _, t2 = extract.module_ast(m)
+                except extract.NotFound:
+                    continue
+                ex2 = module_exception_classes(t2)
+                # bring in the imported names plus their ancestors
+                for a in n.names:
+                    nm = a.name
+                    while nm in ex2 and nm not in excs:
+                        excs[a.asname or nm if nm == a.name else nm] = ex2[nm]
+                        nm = ex2[nm][0]
+                break
     exc_parents = {k: v[0] for k, v in excs.items()}
     _EXC_TABLE[fn.module] = exc_parents
     states = {}
